@@ -388,6 +388,59 @@ def main(argv):
                         if (r2, r3) != ("True", "b:7a") or (not kept and not any(e[0] == "connect" for e in S.world.ledger[nled:])):
                             ctx.violation("after a call failed on the server's answer the next calls did not work (on a fresh connection, or on the kept one)",
                                           dict(case, connection_kept=kept, next_calls=[r2, r3]), tags=["reply-level"])
+    # ---- part 4: Clients inside a pool or a hash client ("on its own or inside a pool or hash client"): histories with idle gaps beyond
+    #      pool_idle_timeout and with failures; at every moment each Client object has at most one open socket, every open socket belongs to a
+    #      Client the wrapper still knows, and after close() nothing is open -----------------------------------------------------------------------
+    import pymemcache.pool as pool_mod
+    from pymemcache.client.base import PooledClient
+    from pymemcache.client.hash import HashClient
+    pclock = [1000.0]
+    real_pt = pool_mod.time
+    pool_mod.time = type("T", (), {"time": staticmethod(lambda: pclock[0])})
+    try:
+        for wkind in ("Pooled", "Pooled1", "HashPooled"):
+            for idle in (0, 30):
+                for hist in ((0, 120, 0, 0), (0, 10, 120, 1, 120), (40, 40, 40), (0, 0, 31, 29, 31)):
+                    for fault_at in (None, 1, 2):
+                        pclock[0] = 1000.0
+                        S = Scripted(rng)
+                        kwp = dict(socket_module=S.sm, default_noreply=False, pool_idle_timeout=idle, max_pool_size=(1 if wkind == "Pooled1" else 3))
+                        obj = PooledClient(("h", 1), **kwp) if wkind.startswith("Pooled") else HashClient([("h", 1)], use_pooling=True, retry_attempts=0, retry_timeout=0, dead_timeout=0, **kwp)
+                        case = {"class": wkind, "pool_idle_timeout": idle, "gaps": list(hist), "fault_at_call": fault_at}
+                        ctx.case(("pooled", wkind, idle, hist, fault_at))
+                        ctx.count("pooled-lifecycle-histories")
+                        seen_clients = []
+                        bad = None
+                        res = []
+                        for n, gap in enumerate(hist):
+                            pclock[0] += gap
+                            S.begin_call(n, {"recv_fault": (0, "timeout")} if fault_at == n else {})
+                            res.append(run_call(obj, {"op": "set", "k": "k", "v": b"%d" % n, "nr": False} if n % 2 == 0 else {"op": "get", "k": "k"}))
+                            pools = [obj.client_pool] if wkind.startswith("Pooled") else [c_.client_pool for c_ in obj.clients.values()]
+                            known = [o for p_ in pools for o in list(p_.free) + list(p_.used)]
+                            attached = {id(o.sock) for o in known if o.sock is not None}
+                            stray = [c_.id for c_ in S.world.conns if not c_.closed and id(c_) not in attached]
+                            if stray:
+                                bad = f"after call {n}: open socket(s) {stray} belong to no Client the pool knows (2 sockets for one call, or a leak)"
+                                break
+                            if any(len(p_.used) for p_ in pools):
+                                bad = f"after call {n}: a client is still checked out"
+                                break
+                            if fault_at != n and res[-1].startswith("exc:"):
+                                bad = f"call {n} failed although no fault was scheduled for it: {res[-1]}"
+                                break
+                        if bad is None:
+                            try:
+                                obj.close()
+                            except Exception as e:
+                                bad = "close() raised " + repr(e)[:60]
+                            still = [c_.id for c_ in S.world.conns if not c_.closed]
+                            if bad is None and still:
+                                bad = f"after close(): socket(s) {still} are still open"
+                        if bad:
+                            ctx.violation("a Client inside a pool: " + bad, dict(case, results=res), tags=["pooled-lifecycle"])
+    finally:
+        pool_mod.time = real_pt
     ctx.assumptions = ["OS-level descriptors are modelled by ids in a ledger; close() counts as closed even if it raises",
                        "faults are Exception-class (BaseException is C10)"]
     ctx.finish()
